@@ -579,6 +579,36 @@ fn run_external(script: &str, shared: Arc<Shared>) {
 
 // ---------------------------------------------------------------------------------------------------------------------
 
+/// Does this process own a socket listening on `port`? (/proc/net/tcp lists the listening sockets of the namespace with
+/// their inodes, /proc/self/fd the sockets of this process.)
+fn we_listen_on(port: u16) -> bool {
+    let mut inodes = Vec::new();
+    if let Ok(t) = std::fs::read_to_string("/proc/net/tcp") {
+        for l in t.lines().skip(1) {
+            let f: Vec<&str> = l.split_whitespace().collect();
+            if f.len() > 9 && f[3] == "0A" {
+                if let Some(p) = f[1].rsplit(':').next() {
+                    if u16::from_str_radix(p, 16).ok() == Some(port) {
+                        inodes.push(format!("socket:[{}]", f[9]));
+                    }
+                }
+            }
+        }
+    } else {
+        return true; // cannot tell: assume so
+    }
+    if let Ok(d) = std::fs::read_dir("/proc/self/fd") {
+        for e in d.flatten() {
+            if let Ok(l) = std::fs::read_link(e.path()) {
+                if inodes.iter().any(|i| l.to_string_lossy() == *i) {
+                    return true;
+                }
+            }
+        }
+    }
+    false
+}
+
 pub fn dispatch(name: &str, args: &[&str]) -> Option<String> {
     match name {
         // c12 <pool> <poll_us|none> <hb off|int_ms:timeout_ms> <link ext|int> <csleep_ms:flags> <settle_ms> <ext script> <client script>*
@@ -596,76 +626,89 @@ pub fn dispatch(name: &str, args: &[&str]) -> Option<String> {
             let settle: u64 = args[5].parse().unwrap();
             let ext_script = args[6].to_string();
             let scripts: Vec<String> = args[7..].iter().map(|s| s.to_string()).collect();
-            let shared_value = Shared {
-                seq: AtomicU64::new(0),
-                gid: AtomicU64::new(0),
-                events: Mutex::new(Vec::new()),
-                sends: Mutex::new(Vec::new()),
-                sender: Mutex::new(None),
-                slots: Mutex::new(vec![None; scripts.len().max(1)]),
-                connect_sleep_ms: csleep.parse().unwrap(),
-                greet: flags.contains('g'),
-                joined: flags.contains('j'),
-                left: flags.contains('l'),
-            };
-            // the app
-            let port = free_port();
-            let (sd_tx, sd_rx) = channel::<()>();
-            let (app_sd_tx, app_sd_rx) = channel::<()>();
-            let (done_tx, done_rx) = channel::<()>();
-            let mut ws: AsyncWebsocketApp<Shared> = if internal {
-                AsyncWebsocketApp::new_with_config(shared_value, pool, 4)
-            } else {
-                AsyncWebsocketApp::new_unlinked_with_config(shared_value, pool)
-            };
-            let shared: Arc<Shared> = ws.get_state();
-            ws = ws.with_polling_interval(poll).with_shutdown(sd_rx);
-            if let Some((i, t)) = hb {
-                ws = ws.with_heartbeat(Heartbeat::new(Duration::from_millis(i), Duration::from_millis(t)));
-            }
-            // flags c / m / x: that handler is NOT installed
-            if !flags.contains('c') {
-                ws.on_connect(on_connect);
-            }
-            if !flags.contains('x') {
-                ws.on_disconnect(on_disconnect);
-            }
-            if !flags.contains('m') {
-                ws.on_message(on_message);
-            }
-            *shared.sender.lock().unwrap() = Some(ws.sender());
-            let mut http_done = None;
-            if internal {
-                ws = ws.with_address(("127.0.0.1", port));
-            } else {
-                let hook = ws.connect_hook().unwrap();
-                let http: App<()> = App::new_with_config(4, ()).with_websocket_route("/*", async_websocket_handler(hook)).with_shutdown(app_sd_rx);
-                let (htx, hrx) = channel::<()>();
-                std::thread::spawn(move || {
-                    let _ = http.run(("127.0.0.1", port));
-                    let _ = htx.send(());
-                });
-                http_done = Some(hrx);
-            }
-            let run_thread = std::thread::spawn(move || {
-                ws.run();
-                let _ = done_tx.send(());
-            });
-            let run_id = run_thread.thread().id();
-            // wait until the port accepts connections
-            let t = Instant::now();
-            let mut up = false;
-            while t.elapsed() < Duration::from_secs(3) {
-                if let Ok(s) = TcpStream::connect(("127.0.0.1", port)) {
-                    drop(s);
-                    up = true;
-                    break;
+            let mut attempts = 0;
+            let (shared, port, sd_tx, app_sd_tx, done_rx, http_done, run_id) = loop {
+                let shared_value = Shared {
+                    seq: AtomicU64::new(0),
+                    gid: AtomicU64::new(0),
+                    events: Mutex::new(Vec::new()),
+                    sends: Mutex::new(Vec::new()),
+                    sender: Mutex::new(None),
+                    slots: Mutex::new(vec![None; scripts.len().max(1)]),
+                    connect_sleep_ms: csleep.parse().unwrap(),
+                    greet: flags.contains('g'),
+                    joined: flags.contains('j'),
+                    left: flags.contains('l'),
+                };
+                // the app
+                let port = free_port();
+                let (sd_tx, sd_rx) = channel::<()>();
+                let (app_sd_tx, app_sd_rx) = channel::<()>();
+                let (done_tx, done_rx) = channel::<()>();
+                let mut ws: AsyncWebsocketApp<Shared> = if internal {
+                    AsyncWebsocketApp::new_with_config(shared_value, pool, 4)
+                } else {
+                    AsyncWebsocketApp::new_unlinked_with_config(shared_value, pool)
+                };
+                let shared: Arc<Shared> = ws.get_state();
+                ws = ws.with_polling_interval(poll).with_shutdown(sd_rx);
+                if let Some((i, t)) = hb {
+                    ws = ws.with_heartbeat(Heartbeat::new(Duration::from_millis(i), Duration::from_millis(t)));
                 }
-                std::thread::sleep(Duration::from_millis(2));
-            }
-            if !up {
-                return Some("noserver".into());
-            }
+                // flags c / m / x: that handler is NOT installed
+                if !flags.contains('c') {
+                    ws.on_connect(on_connect);
+                }
+                if !flags.contains('x') {
+                    ws.on_disconnect(on_disconnect);
+                }
+                if !flags.contains('m') {
+                    ws.on_message(on_message);
+                }
+                *shared.sender.lock().unwrap() = Some(ws.sender());
+                let mut http_done = None;
+                if internal {
+                    ws = ws.with_address(("127.0.0.1", port));
+                } else {
+                    let hook = ws.connect_hook().unwrap();
+                    let http: App<()> = App::new_with_config(4, ()).with_websocket_route("/*", async_websocket_handler(hook)).with_shutdown(app_sd_rx);
+                    let (htx, hrx) = channel::<()>();
+                    std::thread::spawn(move || {
+                        let _ = http.run(("127.0.0.1", port));
+                        let _ = htx.send(());
+                    });
+                    http_done = Some(hrx);
+                }
+                let run_thread = std::thread::spawn(move || {
+                    ws.run();
+                    let _ = done_tx.send(());
+                });
+                let run_id = run_thread.thread().id();
+                // wait until the port accepts connections
+                let t = Instant::now();
+                let mut up = false;
+                while t.elapsed() < Duration::from_secs(3) {
+                    if let Ok(s) = TcpStream::connect(("127.0.0.1", port)) {
+                        drop(s);
+                        up = true;
+                        break;
+                    }
+                    std::thread::sleep(Duration::from_millis(2));
+                }
+                // the listener must be OURS: between free_port()'s probe and the App's own bind another process may have taken
+                // the port, and then the clients would talk to a foreign server
+                if up && we_listen_on(port) {
+                    break (shared, port, sd_tx, app_sd_tx, done_rx, http_done, run_id);
+                }
+                sd_tx.send(()).ok();
+                app_sd_tx.send(()).ok();
+                let _ = done_rx.recv_timeout(Duration::from_secs(2));
+                let _ = humphrey_ws::verif_trace::take(run_id);
+                attempts += 1;
+                if attempts >= 6 {
+                    return Some("noserver".into());
+                }
+            };
             // clients and the external sender
             let live: Arc<Mutex<Vec<Parked>>> = Arc::new(Mutex::new(Vec::new()));
             let mut threads = Vec::new();
@@ -690,6 +733,11 @@ pub fn dispatch(name: &str, args: &[&str]) -> Option<String> {
             if let Some(h) = http_done {
                 let _ = h.recv_timeout(Duration::from_secs(3));
             }
+            // is the listening port still served after `run` has returned? (internal link: the inner App has no shutdown)
+            let listen_after = returned.is_some() && {
+                std::thread::sleep(Duration::from_millis(5));
+                TcpStream::connect(("127.0.0.1", port)).is_ok()
+            };
             let hook = humphrey_ws::verif_trace::take(run_id);
             // every dispatched handler must get to run: wait for the handler log to reach the number of dispatches
             let dispatched = hook.iter().filter(|e| e.starts_with("d,")).count();
@@ -735,9 +783,10 @@ pub fn dispatch(name: &str, args: &[&str]) -> Option<String> {
             let dash = |v: Vec<String>| if v.is_empty() { "-".to_string() } else { v.join(";") };
             let sends: Vec<String> = shared.sends.lock().unwrap().iter().map(|(e, t)| format!("{},{}", e, t)).collect();
             Some(format!(
-                "ok returned={} sig={} H={} E={} S={} C={}",
+                "ok returned={} sig={} listen_after={} H={} E={} S={} C={}",
                 returned.map(|m| m.to_string()).unwrap_or_else(|| "never".into()),
                 sig_ns,
+                listen_after as u8,
                 dash(hook),
                 dash(e_s),
                 dash(sends),
